@@ -230,7 +230,7 @@ func (w *World) verifyFunc(fi *FuncInfo, props []string) (res *FuncResult) {
 							}
 						}
 					}
-					phi := fmt.Sprintf("(forall ((r!f Int)) (=> (and (<= r!f %s) %s) (= (select %s r!f) (select %s r!f))))", fx.entry.alloc, strings.Join(append(ne, "true"), " "), hx, he)
+					phi := fmt.Sprintf("(forall ((r!f Int)) (=> (and (< 0 r!f) (<= r!f %s) %s) (= (select %s r!f) (select %s r!f))))", fx.entry.alloc, strings.Join(append(ne, "true"), " "), hx, he)
 					c.oblige(exit, "frame", "only("+k+")", phi, "frame: "+k+" changes only at the objects named in the modifies clause", w.pos(fi.Body.Rbrace))
 					continue
 				}
@@ -238,7 +238,7 @@ func (w *World) verifyFunc(fi *FuncInfo, props []string) (res *FuncResult) {
 					continue
 				}
 				if strings.HasPrefix(k, "F:") || strings.HasPrefix(k, "E:") || strings.HasPrefix(k, "P:") || strings.HasPrefix(k, "M") || strings.HasPrefix(k, "G:") || k == "CC" || k == "CP" || declared[k] == "fresh" {
-					phi := fmt.Sprintf("(forall ((r!f Int)) (=> (<= r!f %s) (= (select %s r!f) (select %s r!f))))", fx.entry.alloc, hx, he)
+					phi := fmt.Sprintf("(forall ((r!f Int)) (=> (and (< 0 r!f) (<= r!f %s)) (= (select %s r!f) (select %s r!f))))", fx.entry.alloc, hx, he)
 					c.oblige(exit, "frame", "old("+k+")", phi, "frame: "+k+" is not in the modifies clause: unchanged at every reference that existed at entry", w.pos(fi.Body.Rbrace))
 					continue
 				}
